@@ -5,10 +5,18 @@
 set -u
 P=$1; PATCH=$2; TIER=${3:-quick}
 [ -d /tmp/mutrepo ] || git -C /repo worktree add -q --detach /tmp/mutrepo HEAD
-cd /tmp/mutrepo && git checkout -q --detach $(git -C /repo rev-parse HEAD) && git checkout -- . && git clean -fdq
+cd /tmp/mutrepo && git checkout -- . && git clean -fdq && git checkout -q --detach $(git -C /repo rev-parse HEAD)
 git apply "$PATCH" || { echo "patch does not apply"; exit 2; }
 mkdir -p /tmp/mutverif
-rsync -a --delete --exclude .git --exclude harness/target --exclude harness/target-nobz --exclude harness-default/target --exclude lean/.lake --exclude work --exclude replays --exclude evidence /verif/ /tmp/mutverif/
+# by default the COMMITTED state of /verif is used (edits in progress there must not disturb a long seed run);
+# TRY_SEED_WORKTREE=1 takes /verif's working tree instead
+if [ -z "${TRY_SEED_WORKTREE:-}" ]; then
+  rm -rf /tmp/mutverif.src && mkdir -p /tmp/mutverif.src && git -C /verif archive HEAD | tar -x -C /tmp/mutverif.src
+  SRC=/tmp/mutverif.src/
+else
+  SRC=/verif/
+fi
+rsync -a --delete --exclude .git --exclude harness/target --exclude harness/target-nobz --exclude harness-default/target --exclude lean/.lake --exclude work --exclude replays --exclude evidence "$SRC" /tmp/mutverif/
 [ -d /tmp/mutverif/lean/.lake ] || cp -r /verif/lean/.lake /tmp/mutverif/lean/.lake
 cd /tmp/mutverif
 sed -i 's#path = "/repo"#path = "/tmp/mutrepo"#' harness/Cargo.toml harness-default/Cargo.toml
